@@ -3,6 +3,7 @@ VERUS = {
     'int_shift': {'file': 'int_shift.rs', 'w32': True},
     'int_bits': {'file': 'int_bits.rs', 'w32': True},
     'int_div_word': {'file': 'int_div_word.rs', 'w32': True},
+    'int_div_dword': {'file': 'int_div_dword.rs', 'w32': True},
 }
 
 KANI = {
@@ -36,6 +37,20 @@ KANI = {
 }
 
 PROP_UNITS = {
-    'C09': {'verus': ['int_shift', 'int_bits'], 'kani': ['int_shift', 'int_bits']},
-    'C02': {'verus': ['int_shift', 'int_div_word'], 'kani': ['int_shift']},
+    'C09': {'verus': ['int_shift', 'int_bits'], 'kani': ['int_shift', 'int_bits'],
+            'undecided': [
+                'shr_in_place_one_word (raw pointers): only bounded Kani (len <= 4)',
+                'are_slice_low_bits_nonzero (Iterator::any): only bounded Kani (len <= 3, top word non-zero)',
+            ]},
+    'C02': {'verus': ['int_shift', 'int_div_word', 'int_div_dword'], 'kani': ['int_shift', 'int_div_dword'],
+            'undecided': [
+                'num_modular dividers (Normalized2by1Divisor / Normalized3by2Divisor): documented meaning ASSUMED '
+                '(external_body stubs in contracts/lib/div_word_stubs.rs, div_dword_stubs.rs)',
+                'fast_div_by_dword_in_place (rchunks_exact_mut): only bounded Kani (len <= 5, 3 concrete divisors, '
+                'palette words); its contract is assumed by the Verus proof of div_by_dword_in_place',
+                'shr_in_place_one_word (raw pointers): only bounded Kani (len <= 4); its contract is assumed by the '
+                'Verus proofs of shr_in_place / div_by_dword_in_place',
+                'u128::{leading_zeros, trailing_zeros, is_power_of_two}, u64::is_power_of_two, <[T]>::split_last: '
+                'assume_specification / axioms in contracts/lib/div_dword_bits_64.rs, div_word_stubs.rs',
+            ]},
 }
